@@ -5,7 +5,7 @@ from mirsym.dump import program
 from mirsym.interp import Interp, St
 from mirsym import models_std, models_serde
 from mirsym.values import BStr, Ptr, Agg, Enum, Panic, Unwind, bv, bstr_eq, is_abnormal
-from mirsym.harness import sym_str, in_class, model_bytes, Decider, finish_engine, replay
+from mirsym.harness import find_fn, sym_str, in_class, model_bytes, Decider, finish_engine, replay
 from vlib.common import Inconclusive
 
 TOKEN_CLASS = 'A-Za-z0-9._~+/-'
@@ -37,7 +37,7 @@ def run_bearer(rep, tier):
         'is_valid': ([k for k in prog.fns if k.endswith('bearer_token::is_valid')][0], 'bool'),
         'from_str': (fn('::from_str')[0], 'result'),
         'new': (fn('::new')[0], 'result'),
-        'from_plain': ([k for k in prog.fns if k.endswith('::from_plain') and 'BearerToken' in prog.fns[k].ret][0], 'result'),
+        'from_plain': (find_fn(prog, 'from_plain', ret='BearerToken'), 'result'),
         'deserialize': (fn('::deserialize')[0], 'de'),
     }
     for ename, (fname, kind) in entries.items():
@@ -128,7 +128,11 @@ def report(rep, which, entry, b, what):
     if 'error' in r:
         rep.inconc(f'{which} {entry}: counterexample {b!r} is not replayable: {r}')
         return
+    if r.get('panic'):
+        bad.append('native run panics')
     for k, v in r.items():
+        if not isinstance(v, dict):
+            continue
         if v.get('ok') != want:
             bad.append(f'{k} accepts={v.get("ok")} grammar={want}')
         elif want and which == 'bearer' and bytes.fromhex(v['as_str']) != b:
